@@ -2,6 +2,7 @@ import CJ.Drv.Loop
 import CJ.Drv.RW
 import CJ.Drv.ReloadPath
 import CJ.Drv.BdReq
+import CJ.Drv.DnsReq
 /-! Driver for C13: the RWMutex model over the regenerated lock programs; the reload goroutine's rounds. -/
 open CJ.Drv
 
@@ -14,4 +15,6 @@ def main : IO Unit := runDriver fun
   | "rwrefsched" :: args => RW.handle "rwrefsched" args
   | "gate" :: args => ReloadPath.handle args
   | "bdreq" :: args => BdReq.handle args
+  | "dnsreq" :: args => DnsReq.handle args
+  | "raddr" :: args => DnsReq.handleAddr args
   | _ => none
